@@ -126,6 +126,16 @@ def c03Check (m : Msg) (panicked : Bool) (diags : List Diag) (tf : TfVal) : Bool
 -- C20: null-ness of non-element attributes after CopyTo into an empty object
 -- ===================================================================================================
 
+/-- the C20 rule for a scalar attribute: pointer-backed ⇒ null iff nil; with a zero literal ⇒ null iff zero value;
+otherwise (time / duration by value) never null -/
+def c20Prim (info : FieldInfo) (x : GoVal) (a : TfVal) : Bool :=
+  if info.isNullable then isNull a == isNilPtr x
+  else if info.tf.zeroValue != "" then
+    match x with
+    | .sc s => isNull a == scIsZero s
+    | _ => false
+  else !isNull a
+
 mutual
 def c20Attrs (fs : List Field) (obj : GoVal) (parentAbsent : Bool) (attrs : List (String × TfVal)) : Bool :=
   match fs with
@@ -146,12 +156,7 @@ def c20Field (f : Field) (obj : GoVal) (parentAbsent : Bool) (attrs : List (Stri
       | .primitive =>
         if info.isPlaceholder then isNull a
         else if embedNil then isNull a
-        else if info.isNullable then isNull a == isNilPtr x
-        else if info.tf.zeroValue != "" then
-          match x with
-          | .sc s => isNull a == scIsZero s
-          | _ => false
-        else !isNull a
+        else c20Prim info x a
       | .primitiveList | .objectList => isNull a == (sliceElems x).isEmpty
       | .primitiveMap | .objectMap => isNull a == (mapElems x).isEmpty
       | .object =>
@@ -499,7 +504,7 @@ def objRenders (nullable : Bool) (rs : GoVal → List (String × TfVal) → Bool
   match v with
   | .obj u n as _ =>
     !u && (if nullable then (n == isNilPtr e) && (isNilPtr e || rs (structOf e) (as.getD []))
-           else rs (structOf e) (as.getD []))
+           else !n && rs (structOf e) (as.getD []))
   | _ => false
 
 mutual
